@@ -203,6 +203,10 @@ BuildErrFrom(prog, j) ==
            before == OutKeys(SubSeq(prog, 1, j - 1), 1, {}) IN
        \/ (o.op = "assign" /\ (AssignKeys(o) \cap before # {}
                                \/ (SELF \in (before \cup AssignKeys(o)) /\ Cardinality(before \cup AssignKeys(o)) > 1)))
+       \* one operator naming the same output twice, or SELF next to another key, cannot route both values
+       \/ (o.op \in {"assign", "apply", "select"}
+           /\ (\/ \E m, n \in 1..Len(o.outs) : m < n /\ o.outs[m].t = "path" /\ o.outs[n].t = "path" /\ o.outs[m].p = o.outs[n].p /\ o.outs[m].p # SKIP
+               \/ (SELF \in AssignKeys(o) /\ Cardinality(AssignKeys(o)) > 1)))
        \/ BuildErrFrom(prog, j + 1)
 BuildError(prog) == BuildErrFrom(prog, 1)
 
@@ -228,6 +232,7 @@ Keys == {
   Assign(<<OM(<<"c", "d">>, <<"q", "p">>)>>, "mkdict", <<IP(A)>>), Assign(<<OP(C)>>, "sumab", <<IP(SELF)>>),
   Assign(<<OP(C)>>, "const7", <<>>), Assign(<<OP(MZ)>>, "inc", <<IP(A)>>), AssignKw(<<OP(C)>>, "sub", <<IP(A), IP(B)>>, <<"y", "x">>),
   Assign(<<OP(C), OP(D)>>, "inc", <<IP(A)>>), Assign(<<OP(C)>>, "sub", <<IP(A), IL(7)>>), Assign(<<OP(SELF)>>, "inc", <<IP(A)>>),
+  Assign(<<OP(C), OP(C)>>, "pair", <<IP(A)>>), Apply("pair", <<IP(A)>>, <<OP(C), OP(SELF)>>), Apply("pair", <<IP(A)>>, <<OP(C), OP(C)>>),
   Filter("odd", <<IP(NX)>>), Filter("odd", <<IP(SELF)>>), Filter("mod3", <<IP(B)>>), Filter("ident", <<IP(K("n"))>>),
   Assign(<<OP(C), OP(NY)>>, "pair", <<IP(A)>>), Assign(<<OP(NY), OP(C)>>, "pair", <<IP(A)>>), Op("filter", "odd", <<IP(A)>>, <<"x">>, <<>>, 0),
   Sink(<<IP(A)>>), Sink(<<IP(NX), IL(7)>>), SinkKw(<<IP(A)>>, <<"x">>),
